@@ -170,7 +170,7 @@ def run(ctx):
           "a caller's array rewrites a population that was already recorded")
     reuse(ctx, c11.run, ("C11.restore",), "C18res", "restore rule shared with C11: the record of a resumed run starts with the checkpointed history; if the restore replaces it "
           "(a default, an `or` on an object that can be falsy), the entries of the iterations before the interruption are gone",
-          only=lambda f: "history" in f.key.split(" | ")[-1])
+          only=lambda f: "history" in f.key.split(" | ")[-1] or "samples|redrawn" in f.key)
     reuse(ctx, c11.run, ("C11.state",), "C18ckpt", "payload rule shared with C11: a checkpoint built part-way through an iteration from values saved earlier copies a history that already "
           "holds the entries of the iteration in progress; the resumed run records them again", only=lambda f: f.key.endswith("extra-payload"))
     reuse(ctx, c11.run, ("C11.cut",), "C18cut", "cut-point rule shared with C11: a checkpoint taken before the iteration's last history append restores a history that lacks that entry")
